@@ -85,6 +85,68 @@ type RecContractor struct {
 	// section) right after every committing call
 	SnapAccts []proto4.Account
 	SnapPools []proto4.Account
+	// Gate, when armed, parks ONE call of the server on this contractor (before or after it is
+	// delegated) until the harness releases it: the scheduler of the concurrent leg.
+	Gate *Gate
+}
+
+// A Gate parks the first call that reaches its point ("pre:Lock", "post:Lock", "pre:Bal",
+// "post:Bal", "pre:Commit", "post:Commit") after Arm, outside every mutex of the recorder.
+type Gate struct {
+	mu      sync.Mutex
+	point   string
+	armed   bool
+	parked  chan struct{}
+	release chan struct{}
+}
+
+// Arm returns the channel that is closed when a call is parked; Release lets it go on.
+func (g *Gate) Arm(point string) <-chan struct{} {
+	g.mu.Lock()
+	defer g.mu.Unlock()
+	g.point, g.armed = point, true
+	g.parked, g.release = make(chan struct{}), make(chan struct{})
+	return g.parked
+}
+
+// Release lets the parked call (if any) continue and disarms the gate.
+func (g *Gate) Release() {
+	g.mu.Lock()
+	defer g.mu.Unlock()
+	g.armed = false
+	if g.release != nil {
+		close(g.release)
+		g.release = nil
+	}
+}
+
+func (g *Gate) hit(point string) {
+	if g == nil {
+		return
+	}
+	g.mu.Lock()
+	if !g.armed || g.point != point {
+		g.mu.Unlock()
+		return
+	}
+	g.armed = false
+	parked, release := g.parked, g.release
+	g.mu.Unlock()
+	close(parked)
+	<-release
+}
+
+// AccountBalances / PoolBalances are gate points only (they are reads: not recorded).
+func (r *RecContractor) AccountBalances(as []proto4.Account) ([]types.Currency, error) {
+	r.Gate.hit("pre:Bal")
+	defer r.Gate.hit("post:Bal")
+	return r.Contractor.AccountBalances(as)
+}
+
+func (r *RecContractor) PoolBalances(as []proto4.Account) ([]types.Currency, error) {
+	r.Gate.hit("pre:Bal")
+	defer r.Gate.hit("post:Bal")
+	return r.Contractor.PoolBalances(as)
 }
 
 func (r *RecContractor) snap(c *Call) {
@@ -117,6 +179,12 @@ func errStr(err error) string {
 func cloneRoots(r []types.Hash256) []types.Hash256 { return append([]types.Hash256(nil), r...) }
 
 func (r *RecContractor) LockV2Contract(id types.FileContractID) (rhp4.RevisionState, func(), error) {
+	r.Gate.hit("pre:Lock")
+	defer r.Gate.hit("post:Lock")
+	return r.recLockV2Contract(id)
+}
+
+func (r *RecContractor) recLockV2Contract(id types.FileContractID) (rhp4.RevisionState, func(), error) {
 	r.mu.Lock()
 	defer r.mu.Unlock()
 	rs, unlock, err := r.Contractor.LockV2Contract(id)
@@ -157,6 +225,12 @@ func (r *RecContractor) prev(id types.FileContractID) *types.V2FileContract {
 }
 
 func (r *RecContractor) ReviseV2Contract(id types.FileContractID, rev types.V2FileContract, roots []types.Hash256, usage proto4.Usage) error {
+	r.Gate.hit("pre:Commit")
+	defer r.Gate.hit("post:Commit")
+	return r.recReviseV2Contract(id, rev, roots, usage)
+}
+
+func (r *RecContractor) recReviseV2Contract(id types.FileContractID, rev types.V2FileContract, roots []types.Hash256, usage proto4.Usage) error {
 	r.mu.Lock()
 	defer r.mu.Unlock()
 	c := Call{Op: "Revise", ContractID: id, Revision: &rev, Prev: r.prev(id), Roots: cloneRoots(roots), Usage: usage}
@@ -172,6 +246,12 @@ func (r *RecContractor) ReviseV2Contract(id types.FileContractID, rev types.V2Fi
 }
 
 func (r *RecContractor) CreditAccountsWithContract(deps []proto4.AccountDeposit, id types.FileContractID, rev types.V2FileContract, usage proto4.Usage) ([]types.Currency, error) {
+	r.Gate.hit("pre:Commit")
+	defer r.Gate.hit("post:Commit")
+	return r.recCreditAccountsWithContract(deps, id, rev, usage)
+}
+
+func (r *RecContractor) recCreditAccountsWithContract(deps []proto4.AccountDeposit, id types.FileContractID, rev types.V2FileContract, usage proto4.Usage) ([]types.Currency, error) {
 	r.mu.Lock()
 	defer r.mu.Unlock()
 	c := Call{Op: "CreditAccounts", ContractID: id, Revision: &rev, Prev: r.prev(id), Usage: usage, Deposits: append([]proto4.AccountDeposit(nil), deps...)}
@@ -187,6 +267,12 @@ func (r *RecContractor) CreditAccountsWithContract(deps []proto4.AccountDeposit,
 }
 
 func (r *RecContractor) CreditPoolsWithContract(deps []proto4.AccountDeposit, id types.FileContractID, rev types.V2FileContract, usage proto4.Usage) ([]types.Currency, error) {
+	r.Gate.hit("pre:Commit")
+	defer r.Gate.hit("post:Commit")
+	return r.recCreditPoolsWithContract(deps, id, rev, usage)
+}
+
+func (r *RecContractor) recCreditPoolsWithContract(deps []proto4.AccountDeposit, id types.FileContractID, rev types.V2FileContract, usage proto4.Usage) ([]types.Currency, error) {
 	r.mu.Lock()
 	defer r.mu.Unlock()
 	c := Call{Op: "CreditPools", ContractID: id, Revision: &rev, Prev: r.prev(id), Usage: usage, Deposits: append([]proto4.AccountDeposit(nil), deps...)}
